@@ -1324,6 +1324,37 @@ pub fn c09_container_self_equality() {
     };
     check!(got == Ok(Value::Bool(reflexive)), "a list / map equals itself exactly when every element equals itself (NaN does not)");
 }
+/// C09: min / max of 1-4 mutually comparable numbers of mixed kinds (as separate arguments or one list) return one of the
+/// values, and that value bounds all the others under the language's own `<=` / `>=`.
+pub fn c09_min_max() {
+    let (which, form, count): (u8, u8, u8) = (any(), any(), any());
+    let perm: u8 = any();
+    crate::sym::assume(which <= 1 && form <= 1 && (1..=4).contains(&count) && perm < 24);
+    // a pool of values of the three numeric kinds with ties across kinds, taken in one of 24 orders
+    let pool = ["3", "3u", "2.5", "-7", "9u", "3.0", "0", "-0.0"];
+    let mut idx: Vec<usize> = vec![0, 1, 2, 3];
+    let mut p = perm as usize;
+    let mut order = Vec::new();
+    for k in (1..=4).rev() {
+        order.push(idx.remove(p % k));
+        p /= k;
+    }
+    let start = (perm as usize) % 5;
+    let items: Vec<&str> = order.iter().take(count as usize).map(|j| pool[(start + *j) % pool.len()]).collect();
+    let name = if which == 0 { "max" } else { "min" };
+    let src = if form == 0 { format!("{}({})", name, items.join(", ")) } else { format!("{}([{}])", name, items.join(", ")) };
+    let ctx = Context::default();
+    let got = Program::compile(&src).expect("compiles").execute(&ctx);
+    let Ok(v) = got else {
+        check!(false, "min / max of mutually comparable values is a value");
+        return;
+    };
+    let mut c2 = Context::default();
+    c2.add_variable_from_value("r", v);
+    let rel = if which == 0 { ">=" } else { "<=" };
+    let bounds = format!("[{}].all(x, r {} x) && [{}].exists(x, r == x)", items.join(", "), rel, items.join(", "));
+    check!(Program::compile(&bounds).expect("compiles").execute(&c2) == Ok(Value::Bool(true)), "the result is one of the values and bounds all of them");
+}
 /// C04 visitor half: a run of k prefix operators applies the operator k times (an even run cancels).
 pub fn c04_prefix() {
     let (op, k, operand): (u8, u8, u8) = (any(), any(), any());
@@ -1885,6 +1916,7 @@ crate::replay_only! {
     #[kani::unwind(2)] c04_macro_lookup: "off", "calls named like the macros in macro and non-macro shapes, with host functions registered under the macro names, through Program::compile + execute", "sixteen call shapes";
     #[kani::unwind(2)] c17_special_members: "off", "structs / struct variants / sequences / maps with None, unit, zero, false and empty members through to_value, exact key-set and kind comparison", "four shapes";
     #[kani::unwind(2)] c09_container_self_equality: "off", "Value == Value and `x == x` / `x != x` through Program::compile + execute on lists and maps (nested) holding NaN or an int, both operands one allocation", "4 shapes x 2 payloads x 3 ways of asking";
+    #[kani::unwind(2)] c09_min_max: "off", "min(..) / max(..) over 1-4 numbers of mixed kinds, separate arguments or one list, judged by the language's own comparisons", "2 functions x 2 forms x 1-4 values x 24 orders";
     #[kani::unwind(2)] c12_literal: "off", "a string / bytes literal token through Program::compile + execute against an independent decoder of the CEL literal syntax", "token text of up to 24 characters taken from the vector";
     #[kani::unwind(2)] c13_string_roundtrip: "off", "int(string(x)) / uint(string(x)) / double(string(x)) through Program::compile + execute", "payload bits from the vector";
     #[kani::unwind(2)] c13_literal: "off", "int / uint literals of every sign, radix and magnitude through Program::compile + execute", "text built from the vector";
